@@ -57,15 +57,32 @@ func (t *tr) call(ce *ast.CallExpr) callRes {
 			case kSlice:
 				return one(&val{t: tInt, nat: true, e: "length " + par(t.bytesOf(x))})
 			case kZList:
+				if t.g.loops {
+					return one(&val{t: tInt, nat: true, e: "length " + par(t.listExpr(x))})
+				}
 				return one(&val{t: tInt, nat: true, e: "length " + par(x.e)})
+			case kList:
+				return one(&val{t: tInt, nat: true, e: "length " + par(t.listExpr(x))})
 			}
 			t.fail("len of %s", x.t)
 		case "copy":
 			t.nargs(ce, 2)
+			if t.g.loops && t.copyLoops(ce.Args[0], ce.Args[1]) {
+				return callRes{}
+			}
 			t.copyBytes(ce.Args[0], ce.Args[1])
 			return callRes{}
 		case "append":
+			if t.g.loops && len(ce.Args) > 0 {
+				if l := t.eval(ce.Args[0]); intList(l.t) {
+					return one(t.appendList(ce, l))
+				}
+			}
 			return one(t.appendBytes(ce))
+		case "make":
+			if t.g.loops {
+				return one(t.makeCall(ce))
+			}
 		}
 		if _, ok := t.p.named[fun.Name]; ok {
 			t.nargs(ce, 1)
@@ -83,6 +100,9 @@ func (t *tr) call(ce *ast.CallExpr) callRes {
 		}
 		recv := t.eval(fun.X)
 		m := fun.Sel.Name
+		if recv.t.k == kKeccak {
+			return t.keccakMethod(recv, m, ce)
+		}
 		switch {
 		case recv.t.k == kZ && recv.t.name == "":
 			return t.bigMethod(recv, m, ce)
@@ -123,6 +143,18 @@ func (t *tr) callPkg(pn, name string, ce *ast.CallExpr) callRes {
 	case "utils.Hex":
 		t.nargs(ce, 1)
 		return one(t.conv(&typ{k: kSlice, name: "Hex", pkg: "utils"}, ce.Args[0]))
+	case "sha3.NewLegacyKeccak256":
+		if t.g.loops {
+			t.nargs(ce, 0)
+			c := t.newCell("KeccakStream.kinit", "", oLocal)
+			c.ty = "KeccakStream.kstate"
+			return one(&val{t: &typ{k: kKeccak}, c: c})
+		}
+	case "ffg.NewElement":
+		if t.g.loops {
+			t.nargs(ce, 0)
+			return one(&val{t: tFg, c: t.newCell("0", "", oLocal)})
+		}
 	}
 	if _, ok := t.g.pkgs[pn]; ok {
 		return t.callNamed(pn, name, nil, ce)
@@ -145,6 +177,8 @@ func (t *tr) conv(ty *typ, arg ast.Expr) *val {
 	}
 	x := t.eval(arg)
 	switch {
+	case t.g.loops && ty.k == kSlice && x.t.k == kString:
+		return t.strBytes(x)
 	case ty.k == kZ && x.t.k == kZ && !x.t.bigVal:
 		return &val{t: ty, c: x.c, isNil: x.isNil}
 	case ty.k == kStruct && x.t.k == kStruct && ty.sd == x.t.sd && ty.ptr == x.t.ptr:
